@@ -218,7 +218,11 @@ func (x *Explorer) runOne(ex *Exec) (end string, sample *PathSample) {
 				if !ex.replaying() {
 					r := ex.sol.CheckSat()
 					if r != Unsat {
-						ex.reportViolation("panic", "panic", p.msg, r == Sat)
+						label := "panic"
+						if p.where != "" {
+							label = "panic:" + p.where
+						}
+						ex.reportViolation("panic", label, p.msg, r == Sat)
 					} else {
 						end = "infeasible"
 					}
